@@ -4,4 +4,5 @@ import Gv.Model.Seq
 import Gv.Spec.Genetic
 import Gv.Props.C05
 import Gv.Props.C06
+import Gv.Props.C02
 import Gv.Props.C03
